@@ -706,6 +706,22 @@ fn monitor_b(ctx: &mut Ctx) -> (u64, u64) {
 }
 
 /// Pairs of different kinds / different resources issued in the same interval: both are applied.
+/// counts `on_start_processing` calls (the moment at which an effect, like every resource, takes its pending commands)
+struct StartCounter(Arc<AtomicU64>);
+impl kira::effect::Effect for StartCounter {
+	fn on_start_processing(&mut self) {
+		self.0.fetch_add(1, Ordering::SeqCst);
+	}
+	fn process(&mut self, _input: &mut [Frame], _dt: f64, _info: &kira::info::Info) {}
+}
+struct StartCounterBuilder(Arc<AtomicU64>);
+impl kira::effect::EffectBuilder for StartCounterBuilder {
+	type Handle = ();
+	fn build(self) -> (Box<dyn kira::effect::Effect>, ()) {
+		(Box::new(StartCounter(self.0)), ())
+	}
+}
+
 fn monitor_pairs(ctx: &mut Ctx) {
 	let n = ctx.t(240u64, 4800u64);
 	for i in 0..n {
@@ -957,6 +973,28 @@ fn monitor_pairs(ctx: &mut Ctx) {
 				h.stop(inst());
 				rig.callback(64);
 				rig.callback(64);
+			}
+			// ---- commands are taken once per device callback, at its start - not once per internal buffer: effects on the main track,
+			// a sub-track and a send track are asked to take their commands exactly once per callback, however many internal
+			// buffers the callback spans
+			{
+				let counts: Vec<Arc<AtomicU64>> = (0..3).map(|_| Arc::new(AtomicU64::new(0))).collect();
+				let mut rig = base_rig(MainTrackBuilder::new().with_effect(StartCounterBuilder(counts[0].clone())));
+				rig.watch_alloc = false;
+				let _t = rig.mgr.add_sub_track(TrackBuilder::new().with_effect(StartCounterBuilder(counts[1].clone()))).map_err(|_| "t")?;
+				let _s = rig.mgr.add_send_track(SendTrackBuilder::new().with_effect(StartCounterBuilder(counts[2].clone()))).map_err(|_| "s")?;
+				rig.callback(64);
+				for _ in 0..4 {
+					let before: Vec<u64> = counts.iter().map(|c| c.load(Ordering::SeqCst)).collect();
+					let frames = *r.pick(&[1usize, 64, 65, 128, 64 * 5, 64 * 7 + 3]);
+					rig.callback(frames);
+					for (k, c) in counts.iter().enumerate() {
+						let d = c.load(Ordering::SeqCst) - before[k];
+						if d != 1 {
+							return Err(format!("a callback of {} frames (internal buffer 64): the effect on {} was asked to take its commands {} times (commands take effect at the start of a callback, once)", frames, ["the main track", "a sub-track", "a send track"][k], d));
+						}
+					}
+				}
 			}
 			// ---- commands written to a track just before its handle is dropped still reach it when the track lives on (it persists
 			// until its sounds finish, or a track beneath it is kept)
